@@ -127,6 +127,88 @@ def evaluate(match, value):
     return o
 
 
+class _Continue(Exception):
+    pass
+
+
+def _bind(p, value, env):
+    k = p.get("k")
+    if k == "Bind":
+        env[p["hid"]] = value
+        if "sub" in p:
+            _bind(p["sub"], value, env)
+    elif k in ("Ref", "Box", "Deref"):
+        _bind(p["p"], value, env)
+    elif k == "TupleStruct":
+        for x, v in zip(p["ps"], value[1:]):
+            _bind(x, v, env)
+
+
+def evalv(db, e, env, cmp_value, depth=0):
+    """Constructor-tree value of a HIR expression built from enum constructors, literals, bound names, matches and calls of
+    crate functions of that kind; the one call of partial_cmp evaluates to `cmp_value`.  `continue` raises _Continue.
+    Returns None when the expression is outside this fragment."""
+    if depth > 8:
+        return None
+    b = unq(e)
+    k = b.get("k")
+    if k == "Block":
+        sts = b.get("stmts") or []
+        if not sts and b.get("expr"):
+            return evalv(db, b["expr"], env, cmp_value, depth + 1)
+        if len(sts) == 1 and not b.get("expr") and sts[0].get("k") == "Expr":
+            return evalv(db, sts[0]["e"], env, cmp_value, depth + 1)
+        return None
+    if k == "Continue":
+        raise _Continue()
+    if k == "Lit":
+        return ("lit",)
+    if k == "Path":
+        r_ = b.get("res", {})
+        if "hid" in r_ and r_["hid"] in env:
+            return env[r_["hid"]]
+        nm = last_seg(r_.get("ctor_of", "") or "")
+        return (nm,) if nm else None
+    if k == "MethodCall" and b.get("m", "").endswith("PartialOrd::partial_cmp"):
+        return cmp_value
+    if k == "Call":
+        ctor = last_seg(b.get("fn", {}).get("ctor_of", "") or "")
+        if ctor:
+            args = [evalv(db, a, env, cmp_value, depth + 1) for a in b["args"]]
+            return None if any(a is None for a in args) else (ctor,) + tuple(args)
+        h = db.hir.get(callee(b) or "")
+        if h is not None and h.get("file", "").endswith("fixed_point.rs"):
+            # a helper of the solver: evaluate its body (its parameters are opaque; only the comparison result matters)
+            return evalv(db, h["body"], {}, cmp_value, depth + 1)
+        return None
+    if k == "Match" and b.get("src") == "Normal":
+        sv = evalv(db, b["scrut"], env, cmp_value, depth + 1)
+        if sv is None:
+            return None
+        i = select_arm(b, sv)
+        if i is None:
+            return None
+        e1 = dict(env)
+        _bind(b["arms"][i]["pat"], sv, e1)
+        return evalv(db, b["arms"][i]["body"], e1, cmp_value, depth + 1)
+    return None
+
+
+def ordering_decision(db, hb):
+    """The match that decides what to do with the comparison of the new and the recorded state: its scrutinee is the
+    partial_cmp call itself or a call of a helper of the solver that makes that call."""
+    for n in walk(hb["body"]):
+        if n.get("k") == "Match" and n.get("src") == "Normal":
+            sc = unq(n["scrut"])
+            if sc.get("k") == "MethodCall" and sc.get("m", "").endswith("PartialOrd::partial_cmp"):
+                return n
+            h = db.hir.get(callee(sc) or "") if sc.get("k") == "Call" else None
+            if h is not None and h.get("file", "").endswith("fixed_point.rs") and \
+                    any(x.get("k") == "MethodCall" and x.get("m", "").endswith("PartialOrd::partial_cmp") for x in walk(h["body"])):
+                return n
+    return None
+
+
 def r2(db, rep):
     r = rep.rule("R2", "K4", "ordering test, evaluated on the match patterns for each possible result of partial_cmp: "
                  "Equal -> skip, Greater -> accept, Less / incomparable -> complaint; a complaint is followed by the "
@@ -135,10 +217,14 @@ def r2(db, rep):
             ("Some", ("Greater",)): "none"}
     for fn in (FWD, BWD):
         hb = db.hir[fn]
-        m = ordering_match(hb)
+        m = ordering_decision(db, hb)
         rep.anchor(m is not None, "match over partial_cmp in %s" % fn)
         for val, w in want.items():
-            got = evaluate(m, val)
+            try:
+                v = evalv(db, m, {}, val)
+                got = "?" if v is None else {"Some": "some", "None": "none"}.get(v[0], "?")
+            except _Continue:
+                got = "continue"
             name = val[0] if len(val) == 1 else val[1][0]
             r.decide(got == w, "%s|cmp=%s" % (fn, name), db.where(hb, m["l"]),
                      "when the new state compares %s to the recorded one the solver yields '%s', expected '%s'"
